@@ -6,6 +6,12 @@ M: RewardServer.tla exhaustively (proofs map, failed-retry map keyed by session 
 G: TLC -simulate emits behaviours (proof, snap, update(cur, earliest, okNew, okRetry), paid, restart).
 R: harness/cmd/rewardserver replays them into the real RewardServer (mock RewardsTxSender, RewardDB over an
    on-disk Badger DB; restart = close DB, new server on the same directory via AddDataBase).
+C: concurrency clause ("whatever the arrival order or concurrency"): RewardServer.tla models concurrent
+   SendNewProof calls step by step; RewardServer_conc.cfg (compare+store in one critical section, as the
+   code is) holds, RewardServer_split.cfg (check-then-act) must violate KeepsBest (design-level
+   sensitivity).  The driver's -stress mode runs rounds of G goroutines released by a barrier on the same
+   epoch/consumer/session with different CuSums; after quiescence the kept (snapshotted) and the submitted
+   proof of every round are validated by TLC against Trace_RewardBurst (Obs: kept = max received).
 V: TLC validates the recorded trace against Trace_RewardServer: Conf mode on the observables C29 names
    (SendNewProof answers, TxRelayPayment calls, RewardDB contents); the invariants are evaluated on every
    accepted state.
@@ -42,6 +48,54 @@ def _validate(ctx, behs, tag):
     ctx.cov["traces_validated_against_impl"] += len(behs)
     ctx.cov["trace_events"] = ctx.cov.get("trace_events", 0) + len(rows)
     return None
+
+
+def _stress(ctx, tag, rounds, workers, seed):
+    """Concurrent phase. Returns None or a dict describing the violated round."""
+    binp = vlib.go_build("rewardserver")
+    tpath = os.path.join(ctx.work, tag + "_burst.ndjson")
+    vlib.run_harness(binp, ["-stress", rounds, workers, seed, tpath], timeout=3600)
+    rows = vlib.read_ndjson(tpath)
+    if len(rows) != rounds:
+        raise vlib.Infra("stress driver logged %d rounds of %d" % (len(rows), rounds))
+    overl = sum(1 for r in rows if r["overlap"] > 0)
+    ctx.cov["burst_rounds"] = ctx.cov.get("burst_rounds", 0) + rounds
+    ctx.cov["burst_rounds_with_overlapping_calls"] = ctx.cov.get("burst_rounds_with_overlapping_calls", 0) + overl
+    ctx.cov["burst_calls"] = ctx.cov.get("burst_calls", 0) + rounds * workers
+    if overl * 20 < rounds:
+        raise vlib.Infra("vacuous concurrent phase: only %d of %d rounds had overlapping SendNewProof calls" % (overl, rounds))
+    res = vlib.tlc_trace(ctx, "Trace_RewardBurst", "Trace_RewardBurst.cfg", tpath, tag=tag + "_burst", timeout=1800)
+    if res["accepted"]:
+        ctx.cov["traces_validated_against_impl"] += rounds
+        return None
+    if res["violated"] == "postcondition" or not (res["violated"] or "").startswith("invariant:"):
+        raise vlib.Infra("burst trace not consumed by Trace_RewardBurst (%s, see %s)" % (res["violated"], res["outfile"]))
+    line = vlib.violated_line(res) or 1
+    ev = rows[line - 1]
+    nbad = sum(1 for r in rows if r["kept"] != max([c["cu"] for c in r["calls"]] + [r["seedcu"]]) or r["subs"] != [r["kept"]])
+    return {"sig": "%s@burst" % res["violated"], "event": ev, "bad_rounds": nbad}
+
+
+def _concurrency(ctx):
+    if os.environ.get("VERIF_DEV_SKIP_MC") != "1":
+        mc = vlib.tlc_mc(ctx, "RewardServer", "RewardServer_conc.cfg", timeout=1800, tag="RewardServer_conc")
+        if mc["violated"]:
+            raise vlib.Infra("design-level spec (atomic save, concurrent calls) violates %s (see %s)" % (mc["violated"], mc["outfile"]))
+        ctx.add_mc("RewardServer concurrent calls, single critical section", mc)
+        sp = vlib.tlc_mc(ctx, "RewardServer", "RewardServer_split.cfg", timeout=600, tag="RewardServer_split")
+        if sp["violated"] != "invariant:KeepsBest":
+            raise vlib.Infra("check-then-act variant of the spec does not violate KeepsBest (%s): the concurrency model is insensitive" % sp["violated"])
+        ctx.notes.append("design level: check-then-act variant (RewardServer_split.cfg) violates KeepsBest as expected")
+    rounds, workers = ctx.pick(1500, 6000), 8
+    bad = _stress(ctx, "stress", rounds, workers, ctx.seed)
+    if bad:
+        again = _stress(ctx, "stress_repro", rounds, workers, ctx.seed + 1)
+        if again is None:
+            raise vlib.Infra("concurrent counter-example not reproduced in a fresh run: %s" % bad["sig"])
+        ctx.violation(again["sig"], "concurrent SendNewProof calls for one session: %d of %d rounds did not keep/submit the highest CuSum received, e.g. %s" % (
+            again["bad_rounds"], rounds, vlib.json.dumps(again["event"])[:700]), {"stress": {"rounds": rounds, "workers": workers, "seed": ctx.seed}})
+        return True
+    return False
 
 
 def _coverage(ctx, behs):
@@ -118,7 +172,8 @@ def run(ctx):
                         "chain memory is longer than the claim window (earliest <= current - window)",
                         "one spec id / one DB; single-digit epochs (DeleteEpochRewards deletes by decimal prefix, see notes)",
                         "window = 1, maxRetries = 3 (code constant), 2 consumers, session ids {1, 2} with one id shared by both consumers",
-                        "a crash is modelled as closing Badger and reopening it (no torn writes); arrival concurrency is not scheduled (sequential arrivals in all orders)"]
+                        "a crash is modelled as closing Badger and reopening it (no torn writes)",
+                        "concurrent arrivals: hook-free stress (8 goroutines per round released by a barrier); interleavings are those the Go scheduler produces, their number makes a lost update practically certain to show (a check-then-act mutant fails ~10 % of the rounds)"]
     bad = _validate(ctx, behs, "sim")
     if bad:
         again = _validate(ctx, [bad["beh"]], "repro")
@@ -128,11 +183,18 @@ def run(ctx):
             again["line"], vlib.json.dumps(again["event"])[:700]), {"behaviours": [bad["beh"]]})
         return
     _trace_coverage(ctx, os.path.join(ctx.work, "sim_trace.ndjson"), ctx.quick)
+    _concurrency(ctx)
 
 
 def replay(ctx, path):
     with open(path) as f:
         obj = vlib.json.load(f)
+    if "stress" in obj:
+        st = obj["stress"]
+        bad = _stress(ctx, "replay", st["rounds"], st["workers"], st["seed"])
+        if bad:
+            ctx.violation(bad["sig"], "replayed concurrent phase still fails in %d rounds: %s" % (bad["bad_rounds"], vlib.json.dumps(bad["event"])[:700]), obj)
+        return
     bad = _validate(ctx, obj["behaviours"], "replay")
     if bad:
         ctx.violation(bad["sig"], "replayed behaviour still fails: %s" % vlib.json.dumps(bad["event"])[:600],
